@@ -83,7 +83,27 @@ def unrecognised(rng, root):
     return True
 
 
-OPS = [('split_run', split_run), ('split_text', split_text), ('split_link', split_link), ('sprinkle', sprinkle), ('unrecognised', unrecognised)]
+def respell(rng, root):
+    """write the same recognised formatting differently: another on-spelling of a toggle, or an explicitly switched-off
+    property where there was none"""
+    runs = list(root.iter(w('r')))
+    if not runs: return False
+    r = rng.choice(runs); pr = r.find(w('rPr'))
+    if pr is None: pr = etree.Element(w('rPr')); r.insert(0, pr)
+    toggles = [c for c in pr if c.tag in (w('b'), w('i'), w('strike'), w('caps'), w('smallCaps')) and c.get(w('val')) in (None, '1', 'true', 'on')]
+    if toggles and rng.random() < 0.6:
+        c = rng.choice(toggles); v = rng.choice([None, '1', 'true', 'on'])
+        if v is None: c.attrib.pop(w('val'), None)
+        else: c.set(w('val'), v)
+        return True
+    present = {c.tag for c in pr}
+    cand = [(n, v) for n, v in [('b', '0'), ('i', 'false'), ('strike', 'off'), ('caps', '0'), ('smallCaps', 'false'), ('u', 'none'), ('vertAlign', 'baseline')] if w(n) not in present]
+    if not cand: return False
+    n, v = rng.choice(cand); e = etree.SubElement(pr, w(n)); e.set(w('val'), v)
+    return True
+
+
+OPS = [('respell', respell), ('split_run', split_run), ('split_text', split_text), ('split_link', split_link), ('sprinkle', sprinkle), ('unrecognised', unrecognised)]
 
 
 def variant(rng, data, parts, nops):
